@@ -33,11 +33,16 @@ def install_fmt_stub(vm, full=False):
         if key in cache: return cache[key][0]
         tag = f'fmt{len(cache)}'
         kind = vm_.fork(4, note=f'{tag}.kind')          # 0 numeral, 1 NaN, 2 inf, 3 -inf
-        if kind == 1: s, desc = 'NaN', ('special', 'NaN')
-        elif kind == 2: s, desc = 'inf', ('special', 'inf')
-        elif kind == 3: s, desc = '-inf', ('special', '-inf')
+        # the text class is tied to the value class (std contract): NaN <-> "NaN", +/-inf <-> "inf"/"-inf", sign bit <-> leading '-'
+        xf = vm_.fp(x)
+        simple = z3.is_const(xf) or (xf.num_args() == 1 and z3.is_const(xf.arg(0)))      # literal or its negation
+        assume = vm_.assume if simple else (lambda c: None)     # for compound terms the class constraint makes z3's incremental FP checks time out (measured): left unconstrained there
+        if kind == 1: s, desc = 'NaN', ('special', 'NaN'); assume(z3.fpIsNaN(xf))
+        elif kind == 2: s, desc = 'inf', ('special', 'inf'); assume(z3.And(z3.fpIsInf(xf), z3.fpIsPositive(xf)))
+        elif kind == 3: s, desc = '-inf', ('special', '-inf'); assume(z3.And(z3.fpIsInf(xf), z3.fpIsNegative(xf)))
         else:
             neg = vm_.fork(2, note=f'{tag}.neg') == 1
+            assume(z3.And(z3.Not(z3.fpIsNaN(xf)), z3.Not(z3.fpIsInf(xf)), z3.fpIsNegative(xf) if neg else z3.fpIsPositive(xf)))
             ni = 1 + (vm_.fork(2, note=f'{tag}.int-digits') if full else 0)
             nf = vm_.fork(3, note=f'{tag}.frac-digits') if full else 0
             cps = [0x2D] if neg else []
